@@ -82,6 +82,14 @@ pub fn check_frame(addr: u16, ty: u8, data: &[u8], borrowed: bool, rep: &mut Rep
             if copy != orig || copy.data().as_ref() != data || via_copy != orig || via_copy.data().as_ref() != data {
                 bad.push(("copy_differs", format!("{:?}", orig), format!("copy {:?}, through a copied message {:?}", copy, via_copy)));
             }
+            // a message object that held the frame's neighbour (same type and data, address + 16) is refilled with
+            // clone_from: converted back it is the frame
+            let mut scratch = Message::from(Frame::new(Address(addr.wrapping_add(16)), MsgType(ty), Data::try_new(data.to_vec()).expect("<=255")));
+            scratch.clone_from(&Message::from(orig.clone()));
+            let via_scratch = Frame::from(scratch);
+            if via_scratch != orig || via_scratch.address().0 != addr {
+                bad.push(("copy_differs", format!("{:?}", orig), format!("through a message refilled with clone_from {:?}", via_scratch)));
+            }
         }
         if !same {
             bad.push(("not_identity", format!("{:?}", orig), back));
